@@ -32,6 +32,7 @@ type Oblig struct {
 	Model   string
 	Output  string
 	ReplayInfo map[string]any
+	ForceFilter bool // query built from the cone of influence of the goal only
 	ShortBudget bool // expected to fail (open known finding): short solver budget
 }
 
@@ -105,6 +106,8 @@ type fx struct {
 	curCallee   *ssa.CallCommon
 	keepAllRegs []region
 	keepAllInit  bool
+	pcOverride   string // guard used by assume instead of curPC (lazily resolved frames)
+	pcOverrideOn bool
 	pendingGhostMods map[string]bool // ghost memories the callee being applied may change
 	boundNames   []string // quantifier variables whose body is being evaluated
 	heapAllocs   []heapAlloc
@@ -151,8 +154,12 @@ func (x *fx) assume(f string) {
 			return
 		}
 	}
-	if x.curBlock != nil && x.curPC != "true" && x.curPC != "" && !defRe.MatchString(f) {
-		f = "(=> " + x.curPC + " " + f + ")"
+	pc := x.curPC
+	if x.pcOverrideOn {
+		pc = x.pcOverride
+	}
+	if x.curBlock != nil && pc != "true" && pc != "" && !defRe.MatchString(f) {
+		f = "(=> " + pc + " " + f + ")"
 	}
 	x.steps = append(x.steps, f)
 }
